@@ -1,3 +1,4 @@
+import Desert.Lemmas.RoundTripFull
 import Desert.Lemmas.AltFormLemmas
 import Desert.Lemmas.EnumLemmas
 /-!
@@ -121,7 +122,7 @@ theorem format_header_steps (fs : List EncField) (k : Nat) :
 
 /-- the unknown-length sequence form, which this writer never emits for std containers but Scala
 desert does, decodes to the value it denotes -/
-theorem unknown_form_decodes (env : Env) (henv : EnvV0 env) (t : Ty) (items : Val) (b : Bytes) (st' : EncSt) (fuel : Nat)
+theorem unknown_form_decodes (env : Env) (henv : EnvWF env) (t : Ty) (items : Val) (b : Bytes) (st' : EncSt) (fuel : Nat)
     (he : encSeqUnknown env t items [] = .ok (b, st')) (hu : items.utf8OK)
     (hd : items.depth < fuel) (hl : items.chainLength < fuel) (tl : Bytes) :
     ∃ s', runAbs (dec env fuel (.seq t)) (AbsSrc.new (b ++ tl)) = .ok (.list (normItems env t items), s') ∧ s'.view = tl :=
